@@ -379,6 +379,13 @@ def c12(run):
     run.scen("MC_Limits", {}, own=by_prefix("prefixed_read", "typed_roundtrip", "scenario"), name="MC_Limits (size-prefixed reads on long streams, typed round trips incl. wide strings)")
 
 
+def _trace_owner(site):
+    """Which property an event recorded through the stream hooks speaks about."""
+    if any(f".{k}." in site for k in ("fixed", "grow", "filew")):
+        return "C14"
+    return "C13" if ("Slice" in site or ".file." in site) else "C12"
+
+
 def _suite_trace(run):
     """Pipeline V on the repository's own test suite: every stream operation the 141 tests perform, validated by Trace_StreamOps."""
     if not os.path.exists(os.path.join(vlib.REPO, "src", "Stream", "VerifTrace.h")):
@@ -391,9 +398,8 @@ def _suite_trace(run):
         mk, mo = re.search(r'"kind": "(\w+)"', m["detail"]), re.search(r'"op": "(\w+)"', m["detail"])
         kind, op = (mk.group(1) if mk else "?"), (mo.group(1) if mo else "?")
         m["site"] = f"suite.{kind}.{op}/trace"
-    # which of the two stream properties an event of the suite speaks about: slices and bare file readers are C13's, the rest C12's
-    mine = [m for m in run.mismatches[n0:] if (("Slice" in m["site"] or ".file." in m["site"]) == (run.pid == "C13"))]
-    run.mismatches[n0:] = mine
+    # which of the stream properties an event of the suite speaks about: writers are C14's, slices and bare file readers C13's, the rest C12's
+    run.mismatches[n0:] = [m for m in run.mismatches[n0:] if _trace_owner(m["site"]) == run.pid]
     run.part("repository test suite traced through the stream hooks", tests_passed=passed, events=v["events"])
 
 
@@ -425,7 +431,7 @@ def _internal_trace(run):
     for m in run.mismatches[n0:]:
         mk, mo = re.search(r'"kind": "(\w+)"', m["detail"]), re.search(r'"op": "(\w+)"', m["detail"])
         m["site"] = f"internal.{mk.group(1) if mk else '?'}.{mo.group(1) if mo else '?'}/trace"
-    run.mismatches[n0:] = [m for m in run.mismatches[n0:] if (("Slice" in m["site"] or ".file." in m["site"]) == (run.pid == "C13"))]
+    run.mismatches[n0:] = [m for m in run.mismatches[n0:] if _trace_owner(m["site"]) == run.pid]
     run.part("library-internal stream operations during scenario replays (hooks)", events=events, modules=[g[0] for g in gens])
 
 
@@ -443,6 +449,8 @@ def c13(run):
 
 
 def c14(run):
+    _suite_trace(run)          # the writer operations of the repository's own tests ...
+    _internal_trace(run)       # ... and those the library performs internally while serialising, validated by Trace_StreamOps
     depth = 4 if run.thorough else 3
     harness = run.harness("writer_walk")
     for machine, n in (("fixed", 3), ("grow", 3), ("file", 3)) + ((("fixed", 4), ("grow", 4), ("file", 4), ("fixed", 0)) if run.thorough else (("fixed", 0),)):
